@@ -303,6 +303,11 @@ def calculator_signal_bookkeeping(cx, types):
         cx.prove_eq(which + "/rephasing", view(qr.signal_REPH), sumR)
         cx.prove_eq(which + "/nonrephasing", view(qr.signal_NONR), sumN)
         cx.prove_eq(which + "/total", view(qr.signal_TOTL), sumR + sumN)
+        # reading is pure: any order and repetition of the three views gives the same answers
+        cx.prove_eq(which + "/total_again", view(qr.signal_TOTL), sumR + sumN)
+        cx.prove_eq(which + "/rephasing_after_total", view(qr.signal_REPH), sumR)
+        cx.prove_eq(which + "/nonrephasing_after_total", view(qr.signal_NONR), sumN)
+        cx.prove_eq(which + "/total_third", view(qr.signal_TOTL), sumR + sumN)
 
 
 def types_ns(i, t):
